@@ -36,7 +36,8 @@ TRUSTED = [
 RULE = ("corr: dyadic systems with 2-5 Wannier functions, random permutations (identity and non-involutions included), "
         "all stored matrices incl. vector-valued ones, derivative orders 1 and 2; oracle: Hermitian systems with Ham, AA, "
         "BB, CC, SS whose Wannier functions share centres in groups of sizes 1-3, random permutation, random block "
-        "unitary on the co-centred groups, and both composed; run() on FFT grids and evaluate_k at random k.  "
+        "unitary on the co-centred groups, and both composed; run() on FFT grids and evaluate_k at random k; the system "
+        "is always USED in a calculation before it is deep-copied and transformed (history: caches populated).  "
         "non-trivial = permutation is not the identity / some group has >= 2 functions; distinct = distinct "
         "(kind, seed, parameters)")
 
@@ -217,14 +218,13 @@ def case_run(ctx, case):
     rs = np.random.RandomState(case["seed"])
     sizes = case["sizes"]
     s = grouped_system(rs, sizes)
-    s2, desc = transformed(rs, s, sizes, case["how"])
     H = s.get_R_mat("Ham")
     bound = float(sum(np.linalg.norm(H[i], 2) for i in range(H.shape[0])))
     Ef = np.linspace(-0.6 * bound, 0.6 * bound, 5)
     NKFFT = np.array(s.NKFFT_recommended)
     NK = NKFFT * np.array(case["NKdiv"])
-    res = []
-    for sys_ in (s, s2):
+
+    def run_on(sys_):
         calcs = integrators(Ef)
         if case.get("tetra"):
             from wannierberri.calculators import static as S
@@ -234,7 +234,11 @@ def case_run(ctx, case):
         calcs["tabulate"] = TabulatorAll(tabs, mode="grid")
         with quiet():
             grid = wb.Grid(sys_, NK=NK, NKFFT=NKFFT)
-            res.append(wb.run(sys_, grid=grid, calculators=calcs, parallel=False, print_Kpoints=False, symmetrize=False))
+            return wb.run(sys_, grid=grid, calculators=calcs, parallel=False, print_Kpoints=False, symmetrize=False)
+    # history: the system is USED (and whatever it caches is cached) before it is copied and transformed
+    res = [run_on(s)]
+    s2, desc = transformed(rs, s, sizes, case["how"])
+    res.append(run_on(s2))
     nontriv = (case["how"] != "reorder" and max(sizes) > 1) or (desc.get("perm") not in (None, sorted(desc.get("perm", []))))
     ctx.case(signature=("run", case["seed"], tuple(sizes), case["how"], tuple(case["NKdiv"])), nontrivial=bool(nontriv))
     info = dict(case, **{k: v for k, v in desc.items()})
@@ -255,11 +259,13 @@ def case_k(ctx, case):
     rs = np.random.RandomState(case["seed"])
     sizes = case["sizes"]
     s = grouped_system(rs, sizes)
-    s2, desc = transformed(rs, s, sizes, case["how"])
     k = rs.uniform(0, 1, 3)
     tabs = tabulators()
     with quiet():
         ra = wb.evaluate_k(s, k=k, calculators={"tab": TabulatorAll(dict(tabs), mode="grid")})
+    # history: the system has been used before it is copied and transformed
+    s2, desc = transformed(rs, s, sizes, case["how"])
+    with quiet():
         rb = wb.evaluate_k(s2, k=k, calculators={"tab": TabulatorAll(dict(tabs), mode="grid")})
     E = ra.results["energy"].data[0]
     gap = np.diff(E).min()
